@@ -516,7 +516,55 @@ func main() {
 '''
 
 
+# call chains of a given depth between the function that produces the tainted datum and the function that consumes it
+# (the visitor keeps at most max-entrypoint-context-size = 5 frames of calling context): mechanism x depth
+DEPTH_KINDS = {"d_%s_%d" % (m, n): (m, n) for m in ("outparam", "ret", "global") for n in (1, 4, 5, 6, 7)}
+
+DEPTH_MAIN = '''package main
+
+import "prog/%(name)s/lib"
+
+func source() string { return "tainted" }
+func sink(x any)     {}
+
+func main() {
+	b := &lib.Box{}
+%(use)s
+	y := source()
+	sink(y)
+	sink(r)
+}
+'''
+
+
+def write_depth_program(d, name, kind):
+    mech, n = DEPTH_KINDS[kind]
+    os.makedirs(os.path.join(d, "lib"), exist_ok=True)
+    fs = ["func source() string { return \"tainted\" }", ""]
+    if mech == "outparam":
+        for i in range(1, n):
+            fs.append("func F%d(b *Box) { F%d(b) }" % (i, i + 1))
+        fs.append("func F%d(b *Box) { b.S = source() }" % n)
+        use = "\tlib.F1(b)\n\tr := b.S\n\tsink(r)"
+    elif mech == "ret":
+        for i in range(1, n):
+            fs.append("func F%d() string { return F%d() }" % (i, i + 1))
+        fs.append("func F%d() string { return source() }" % n)
+        use = "\t_ = b\n\tr := lib.F1()\n\tsink(r)"
+    else:
+        for i in range(1, n):
+            fs.append("func F%d() { F%d() }" % (i, i + 1))
+        fs.append("func F%d() { G = source() }" % n)
+        use = "\t_ = b\n\tlib.F1()\n\tr := lib.Rd()\n\tsink(r)"
+    with open(os.path.join(d, "main.go"), "w") as fh:
+        fh.write(DEPTH_MAIN % {"name": name, "use": use})
+    with open(os.path.join(d, "lib", "lib.go"), "w") as fh:
+        fh.write(LIB_HEAD + "\n// kind: " + kind + "\n" + "\n".join(fs) + "\n\nfunc Rd() string {\n\treturn G\n}\n")
+
+
 def write_kind_program(d, name, kind):
+    if kind in DEPTH_KINDS:
+        return write_depth_program(d, name, kind)
     decls, wr, rd = GLOBAL_KINDS[kind]
     os.makedirs(os.path.join(d, "lib"), exist_ok=True)
     with open(os.path.join(d, "main.go"), "w") as fh:
